@@ -160,6 +160,18 @@ func (e C18Engine) c18GovItems(r *Run, typ string) (valid []string, invalid []st
 		invalid = []string{gitem("regcoin", "symbol", "USDT")} // base denom already registered
 	case "alias":
 		valid = append(valid, gitem("alias", "denom", "usdt", "alias", fmt.Sprintf("c18alias%d", u())), gitem("alias", "denom", "dai", "alias", fmt.Sprintf("c18alias%d", u())))
+		// naming an alias the denom already has removes it (several others survive: the metadata is rewritten)
+		for _, d := range []string{"usdt", "dai"} {
+			if md, ok := w.App.BankKeeper.GetDenomMetaData(w.Ctx(), d); ok && len(md.DenomUnits) > 0 {
+				for _, al := range md.DenomUnits[0].Aliases {
+					if strings.HasPrefix(al, "c18alias") && len(md.DenomUnits[0].Aliases) >= 3 {
+						valid = append(valid, gitem("alias", "denom", d, "alias", al))
+						r.Probe("c18-alias-removal-offered")
+						break
+					}
+				}
+			}
+		}
 		invalid = []string{gitem("alias", "denom", fmt.Sprintf("nosuchdenom%d", u()), "alias", "c18x")}
 	}
 	return valid, invalid
